@@ -124,21 +124,43 @@ func posBits(bits, hashes int, h mh.Multihash) string {
 var bloomSizes = []int{1, 2, 8, 64, 128}
 var bloomHashes = []int{1, 2, 3, 7, 20, 64, 200}
 
+// bbloom rounds every size below 512 bits up to 512: those filters are identical.
+func bloomBits(sizeBytes int) int {
+	if sizeBytes*8 < 512 {
+		return 512
+	}
+	return sizeBytes * 8
+}
+
+func posName(u *universe, sizeBytes, hashes int) string {
+	return fmt.Sprintf("pos_%d_%d_%d", u.n, bloomBits(sizeBytes), hashes)
+}
+
 // posTables renders, once per cases file, the measured Bloom positions of every
-// key for every (filter size, hash count) the generators use.
-func posTables(us ...*universe) string {
+// key for every distinct (filter bits, hash count) the generators use.
+func posTables(u6, u10 *universe) string {
 	var b strings.Builder
 	b.WriteString("Definition pos_none : list (list N) := [].\n")
-	for _, u := range us {
-		for _, sz := range bloomSizes {
-			for _, h := range bloomHashes {
-				rows := make([]string, u.n)
-				for i := range rows {
-					rows[i] = posBits(sz*8, h, u.hash[i])
-				}
-				fmt.Fprintf(&b, "Definition pos_%d_%d_%d : list (list N) := %s.\n", u.n, sz, h, vh.List(rows))
-			}
+	seen := map[string]bool{}
+	emit := func(u *universe, sz, h int) {
+		name := posName(u, sz, h)
+		if seen[name] {
+			return
 		}
+		seen[name] = true
+		rows := make([]string, u.n)
+		for i := range rows {
+			rows[i] = posBits(sz*8, h, u.hash[i])
+		}
+		fmt.Fprintf(&b, "Definition %s : list (list N) := %s.\n", name, vh.List(rows))
+	}
+	for _, sz := range bloomSizes {
+		for _, h := range bloomHashes {
+			emit(u10, sz, h)
+		}
+	}
+	for _, sh := range [][2]int{{1, 1}, {1, 3}, {1, 7}, {8, 64}} {
+		emit(u6, sh[0], sh[1])
 	}
 	return b.String()
 }
@@ -271,6 +293,10 @@ func (u *universe) apply(ctx context.Context, s *store, o sop) string {
 		s.d.readonly = false
 		s.d.mu.Unlock()
 	}()
+	return u.applyRaw(ctx, s, o)
+}
+
+func (u *universe) applyRaw(ctx context.Context, s *store, o sop) string {
 	c := cid.Undef
 	if o.Kind != "putmany" && o.Kind != "rebuild" && o.Kind != "rebuildc" && o.Kind != "active" {
 		c = u.cidOf(o.K, o.Variant)
@@ -327,7 +353,7 @@ func (u *universe) applyCtl(ctx context.Context, s *store, o sop) string {
 		rctx, cancel := context.WithCancel(ctx)
 		defer cancel()
 		s.d.mu.Lock()
-		s.d.plan = qplan{kind: o.QKind, pos: o.QPos, cancel: cancel}
+		s.d.plans[tidOf(rctx)] = qplan{kind: o.QKind, pos: o.QPos, cancel: cancel}
 		s.d.mu.Unlock()
 		return resErr(s.bcs.Rebuild(rctx))
 	case "rebuildc":
@@ -395,7 +421,7 @@ func runSeq(t *testing.T, u *universe, c seqCfg, ops []sop) seqResult {
 	cached.d.takeTouched()
 	bctx, bcancel := context.WithCancel(ctx)
 	defer bcancel()
-	cached.d.plan = qplan{kind: c.BKind, pos: c.BPos, cancel: bcancel}
+	cached.d.plans[-1] = qplan{kind: c.BKind, pos: c.BPos, cancel: bcancel}
 	cbs, err := bstore.CachedBlockstore(bctx, cached.bs, bstore.CacheOpts{
 		HasBloomFilterSize: c.Bloom, HasBloomFilterHashes: c.Hashes, HasTwoQueueCacheSize: c.TQ})
 	if err != nil {
@@ -455,7 +481,7 @@ func runSeq(t *testing.T, u *universe, c seqCfg, ops []sop) seqResult {
 	bn, bc := enumOutcome(c.BKind, c.BPos, buildOK)
 	masks := "pos_none"
 	if c.Bloom != 0 {
-		masks = fmt.Sprintf("pos_%d_%d_%d", u.n, c.Bloom, c.Hashes)
+		masks = posName(u, c.Bloom, c.Hashes)
 	}
 	term := fmt.Sprintf("CSeq (mkSeq (Build_cfg %s %s) %s %s %s %d %s %s %s)",
 		vh.Bool(c.TQ > 0), vh.Bool(c.Bloom != 0), masks, u.sizesZ,
